@@ -85,7 +85,7 @@ extern size_t g_j;                                  /* ghost index into the byte
 #define STEP_MASK_REQ OUT_REQ(mask)
 #define STEP_MASK_ENS __CPROVER_ensures(mask->size == O(mask->size) + NOUT && mask->nw == NOUT) \
                       __CPROVER_ensures(g_j < NOUT ==> (uint8_t)mask->w[g_j] == PDS_MASK_BYTE(O(mask_enabled)))
-#define STEP_MASK_ASSIGNS , mask->size, mask->nw, __CPROVER_object_upto(mask->w, C09_WIN)
+#define STEP_MASK_ASSIGNS , mask->size, mask->nw, mask->first, __CPROVER_object_upto(mask->w, C09_WIN)
 #endif
 
 /* the remaining text is an object of its own when the step is verified; at the call inside parse_data_string it is the tail of
@@ -144,6 +144,6 @@ STEP_MASK_ENS
 __CPROVER_assigns(in, chr, reading_string, reading_unicode_string, reading_comment, reading_multiline_comment, reading_high_nybble,
                   big_endian, mask_enabled, g_returned,
                   g_st_calls, g_st_arg, g_st_end, g_st_base, g_st_kind, g_num, g_dbl, g_flt,
-                  data->size, data->nw, __CPROVER_object_upto(data->w, C09_WIN) STEP_MASK_ASSIGNS);
+                  data->size, data->nw, data->first, __CPROVER_object_upto(data->w, C09_WIN) STEP_MASK_ASSIGNS);
 
 #endif
